@@ -355,11 +355,29 @@ func runC17(w *worker) func(c c17Case) *Failure {
 				var wg sync.WaitGroup
 				var mu sync.Mutex
 				var bad *c17Outcome
+				var badLegacy *Failure
 				for g := 0; g < 8; g++ {
 					wg.Add(1)
+					g := g
 					go func() {
 						defer wg.Done()
 						for k := 0; k < 6; k++ {
+							if !control && g%2 == 1 {
+								// "every placement of such calls" includes next to other goroutines' calls: half of
+								// the goroutines repeat this case's legacy calls, each with arguments of its own
+								for _, l := range c.Before {
+									ops := append([]legacyOp{}, l...)
+									for i := range ops {
+										ops[i].Arg += 1000*g + k
+									}
+									if lf := runLegacy(ops, b, src); lf != nil {
+										mu.Lock()
+										badLegacy = lf
+										mu.Unlock()
+										return
+									}
+								}
+							}
 							if got := c17Codec(c); got != want {
 								mu.Lock()
 								bad = &got
@@ -370,6 +388,10 @@ func runC17(w *worker) func(c c17Case) *Failure {
 					}()
 				}
 				wg.Wait()
+				if badLegacy != nil {
+					badLegacy.Msg = "while other goroutines make codec and legacy calls: " + badLegacy.Msg
+					return badLegacy
+				}
 				if bad != nil {
 					return failf("differs-under-concurrency", "under %s, after legacy calls, concurrent calls on private values and buffers return %+v, the same calls made alone %+v", envLabel, *bad, want)
 				}
